@@ -27,4 +27,55 @@ structure K (c : Cfg) (x : G2State) : Prop where
 theorem k_init (c : Cfg) : K c (g2init c) :=
   ⟨ginv_init c, by simp [g2init, ginit], by simp [g2init, Ph.joining], by simp [g2init, ginit, init], by simp [g2init]⟩
 
+theorem k_step {a : G2Action} (hk : K c x) (hh : a = .joinGiveUp .reader → x.g.cur.rpc.pastSource = true)
+    (h : g2step c x a = some y) : K c y := by
+  have hgi := g2_ginv hk.ginv h
+  cases a
+  case cur a =>
+    obtain ⟨hph, hri, s1, hs, rfl⟩ := g2_cur h
+    refine ⟨hgi, hk.old, ?_, ?_, ?_⟩
+    · intro hj
+      obtain ⟨h1, h2⟩ := hk.join hj
+      exact ⟨(silent_step h1 hs).1, (closed_stays h2 hs).1⟩
+    · intro e; exact absurd e hph
+    · intro e
+      by_cases ha : a = .rInit
+      · simp [ha] at e
+      · simp only [ha, if_false] at e
+        exact ⟨init_stays (hk.rinit e).1 ha hs, hph⟩
+  case old i a =>
+    obtain ⟨_, s0, s1, hi, hs, rfl⟩ := g2_old h
+    refine ⟨hgi, ?_, hk.join, hk.reset, hk.rinit⟩
+    intro q hq
+    rcases mem_set_of hq with rfl | hq
+    · exact (silent_step (hk.old s0 (mem_of_getElem? hi)) hs).1
+    · exact hk.old q hq
+  case rInitEnter =>
+    obtain ⟨hph, hi, _, rfl⟩ := g2_rInitEnter h
+    exact ⟨hgi, hk.old, hk.join, hk.reset, fun _ => ⟨hi, hph⟩⟩
+  case joinOk t =>
+    obtain ⟨ph', hj, hc, rfl⟩ := g2_joinOk h
+    refine ⟨hgi, hk.old, ?_, ?_, ?_⟩
+    · intro _
+      cases hp : x.ph with
+      | run =>
+        simp [joinTarget, hp, hc] at hj
+        exact ⟨Or.inl hj.2.1, hc⟩
+      | joinS => exact hk.join (by simp [hp, Ph.joining])
+      | joinW k => exact hk.join (by simp [hp, Ph.joining])
+      | reset => simp [joinTarget, hp] at hj
+    · intro e
+      simp only at e
+      subst e
+      cases hp : x.ph <;> simp [joinTarget, hp] at hj
+      · split at hj <;> simp at hj
+      · split at hj <;> simp at hj
+    · intro e
+      have := (hk.rinit e).1
+      have hcb := hk.ginv
+      exact absurd hc (by
+        intro hcl
+        sorry)
+  all_goals sorry
+
 end TDV.PM
